@@ -2,7 +2,7 @@
    Statements only; proofs in Proofs/{LogicProofs,SortProofs,RestoreProofs}.v. *)
 From Coq Require Import Permutation Sorted.
 From TV Require Import Prelude.Str Prelude.PosixPath Prelude.SortStable Logic.PyInt Logic.Indexes Logic.Scope
-  Prog.Prog Cmd.Restore Proofs.ProgProofs Proofs.LogicProofs Proofs.SortProofs Proofs.RestoreProofs World.World Proofs.WorldProofs Proofs.WorldRestore Proofs.SortSorted Proofs.Independence Proofs.ListingOverwrite Proofs.ChosenMovesOne Proofs.ChosenMoves Cmd.Put Cmd.Scan Proofs.StaticScan Proofs.StaticRestore.
+  Prog.Prog Cmd.Restore Proofs.ProgProofs Proofs.LogicProofs Proofs.SortProofs Proofs.RestoreProofs World.World Proofs.WorldProofs Proofs.WorldRestore Proofs.SortSorted Proofs.Independence Proofs.ListingOverwrite Proofs.ChosenMovesOne Proofs.ChosenMoves Cmd.Put Cmd.Scan Proofs.StaticScan Proofs.StaticList Proofs.StaticRestore.
 Open Scope Z_scope.
 
 (* scope: an entry is offered iff the requested directory is "/", or is the entry's location itself, or the
@@ -112,12 +112,29 @@ Theorem restore_searches_exactly_these_directories : forall fs, sane fs -> foral
 Proof. intros fs Hs scope o Htd. apply static_restore_search_lemma; auto. Qed.
 Print Assumptions restore_searches_exactly_these_directories.
 
+(* ... and what it has in hand when it prints its list: exactly the entries in scope of those directories, in that order.
+   readable (StaticList): the logger returns, an info file reads as a text or fails with an OSError / decoding error;
+   listdir answers a list or an OSError (= no such directory).  entry_of: a .trashinfo name whose file is a text with a Path is the
+   entry (location joined to the directory's volume, date when valid, info and payload path); dir_found keeps those whose
+   location is the requested directory or lies beneath it (matches_path, C13's scope theorems). *)
+Theorem restore_finds_exactly_the_entries_in_scope : forall fs, sane fs -> readable fs ->
+  (forall p, (exists l, fs (Listdir p) = RList l) \/ (exists e, fs (Listdir p) = RErr e /\ is_OSError e = true)) ->
+  forall scope o home_vol, ro_trash_dir o = None ->
+  (forall p, In p (home_trash_dir_path_from_env (rs_environ o)) -> srun fs (volume_of p) = Done (home_vol p)) ->
+  srun fs (all_files_trashed_from_path o scope)
+  = Done (flat_map (fun p => dir_found fs scope (p, home_vol p)) (home_trash_dir_path_from_env (rs_environ o))
+          ++ flat_map (dir_found fs scope) (restore_dirs_of_mounts fs (rs_uid o) (fs_mounts fs))).
+Proof. intros fs Hs Hr Hl scope o hv Htd Hh. apply static_restore_found_lemma; assumption. Qed.
+Print Assumptions restore_finds_exactly_the_entries_in_scope.
+
 Definition ex_fs13 : statics := fun o =>
   match o with
   | Prog.Exists p => RBool (str_eqb p ($"/vol/.Trash/7"))
   | Isdir p => RBool (str_eqb p ($"/vol") || str_eqb p ($"/vol/.Trash") || str_eqb p ($"/vol/.Trash-7"))
   | Stat _ => RStat 17407%N 0%N
   | ListMounts => RList [$"/vol"; $"/gone"]
+  | Listdir p => if str_eqb p ($"/vol/.Trash-7/info") then RList [$"a.trashinfo"; $"README"] else RList []
+  | ReadText _ => RStr ($"[Trash Info]" ++ [10%N] ++ $"Path=d/a" ++ [10%N] ++ $"DeletionDate=2024-01-02T03:04:05" ++ [10%N])
   | _ => if bool_op o then RBool false else RUnit
   end.
 Example ex_fs13_sane : sane ex_fs13.
@@ -127,6 +144,20 @@ Proof.
   - intros p _. simpl. eauto.
   - simpl. eauto.
 Qed.
+Example ex_fs13_readable : readable ex_fs13
+  /\ (forall p, (exists l, ex_fs13 (Listdir p) = RList l) \/ (exists e, ex_fs13 (Listdir p) = RErr e /\ is_OSError e = true)).
+Proof.
+  split; [constructor|].
+  - intros o Hs. destruct o; simpl in *; try discriminate; reflexivity.
+  - intros p. left. eexists. reflexivity.
+  - intros p _. simpl. destruct (str_eqb p _); eexists; reflexivity.
+  - intros p. left. simpl. destruct (str_eqb p _); eexists; reflexivity.
+Qed.
+Example found_in_scope_only :
+  map tf_location (dir_found ex_fs13 ($"/vol/d") ($"/vol/.Trash-7", $"/vol")) = [$"/vol/d/a"]
+  /\ dir_found ex_fs13 ($"/vol/dd") ($"/vol/.Trash-7", $"/vol") = []
+  /\ dir_found ex_fs13 ($"/") ($"/vol/.Trash/7", $"/vol") = [].
+Proof. repeat split; vm_compute; reflexivity. Qed.
 Example both_directories_of_a_volume :
   restore_dirs_of_mounts ex_fs13 7%N (fs_mounts ex_fs13)
   = [($"/vol/.Trash/7", $"/vol"); ($"/vol/.Trash-7", $"/vol")].
